@@ -234,11 +234,18 @@ where
                 // The card rejected the command: no data block will follow
                 return Err(Error::ReadError);
             }
+            let mut result = Ok(());
             for block in blocks.iter_mut() {
-                self.read_data(&mut block.contents)?;
+                result = self.read_data(&mut block.contents);
+                if result.is_err() {
+                    break;
+                }
             }
-            // Stop the read
-            self.card_command(CMD12, 0)?;
+            // Stop the read - also after a failed block, because the card
+            // keeps sending blocks until it is told to stop.
+            let stopped = self.card_command(CMD12, 0);
+            result?;
+            stopped?;
         }
         Ok(())
     }
@@ -282,13 +289,30 @@ where
                 // The card rejected the command: it is not waiting for data
                 return Err(Error::WriteError);
             }
+            let mut result = Ok(());
             for block in blocks.iter() {
-                self.wait_not_busy(Delay::new_write())?;
-                self.write_data(WRITE_MULTIPLE_TOKEN, &block.contents)?;
+                result = self.wait_not_busy(Delay::new_write());
+                if result.is_ok() {
+                    result = self.write_data(WRITE_MULTIPLE_TOKEN, &block.contents);
+                }
+                if result.is_err() {
+                    break;
+                }
             }
-            // Stop the write
-            self.wait_not_busy(Delay::new_write())?;
-            self.write_byte(STOP_TRAN_TOKEN)?;
+            if result.is_ok() {
+                result = self.wait_not_busy(Delay::new_write());
+            }
+            match result {
+                // Stop the write
+                Ok(()) => self.write_byte(STOP_TRAN_TOKEN)?,
+                Err(e) => {
+                    // A block was not accepted (or the card stayed busy): it
+                    // ignores further blocks until the transfer is stopped
+                    // with CMD12.
+                    let _ = self.card_command(CMD12, 0);
+                    return Err(e);
+                }
+            }
         }
         Ok(())
     }
